@@ -3386,7 +3386,12 @@ impl<'a, R: FileManager> FrontendCtx<'a, R> {
                         .error(&anchor, DiagnosticInfoMessage::NoTypeAnnotationInMappedType);
                 }
             };
-            let ty = self.extract_type(type_ann, file_name.clone())?;
+            // the key variable is in scope in the value type: `{ [K in string]: K }`
+            self.type_application_stack
+                .push((name.clone(), key_type.clone()));
+            let ty = self.extract_type(type_ann, file_name.clone());
+            self.type_application_stack.pop();
+            let ty = ty?;
             let opt_ty = match k.optional {
                 Some(opt) => match opt {
                     TruePlusMinus::True => Optionality::Optional(ty),
